@@ -509,7 +509,37 @@ def _s_explicit_sig(v):
     return h
 
 
+def _s_custom_asextop(v):
+    """an operation class of the user's own that implements the `AsExtOp` interface directly (neither `ExtOp` nor a
+    `RegisteredOp`), as the package's documentation and tests do for gates: its node carries the bare definition name when
+    names are not qualified (seeded change C20-16: the renderer testing for the two concrete classes only)"""
+    from dataclasses import dataclass
+
+    from hugr import ext, ops, tys
+    from hugr.build.dfg import Dfg
+
+    e = ext.Extension("verif.gates", ext.Version(0, 1, 0))
+    names = ["H", "Rz", "g.h"][: 1 + v % 3]
+    for nm in names:
+        e.add_op_def(ext.OpDef(nm, ext.OpDefSig(tys.FunctionType([tys.Qubit], [tys.Qubit])), description="gate " + nm))
+
+    @dataclass(frozen=True)
+    class Gate(ops.AsExtOp):
+        which: str
+
+        def op_def(self):
+            return e.operations[self.which]
+
+    d = Dfg(tys.Qubit)
+    w = d.inputs()[0]
+    for nm in names * (1 + v % 2):
+        w = d.add_op(Gate(nm), w)[0]
+    d.set_outputs(w)
+    return d.hugr
+
+
 SCRIPTS = {
+    "custom_asextop": _s_custom_asextop,
     "loadfn_poly": _s_loadfn_poly,
     "explicit_sig": _s_explicit_sig,
     "order_const": _s_order_const,
@@ -1038,6 +1068,22 @@ def _oracle(h, spec, st):
                     if not ok:
                         fails.append(Failure(site, "name-differs-by-more-than-extension-prefix", f"node {i}: {short!r} vs {long_!r}"))
                         return fails
+    # ---- a renderer made WITHOUT a configuration has a configuration of its own: editing it afterwards does not change
+    # what later default renders draw (seeded change C20-15: one module-level default shared by every renderer)
+    try:
+        from hugr.hugr.render import DotRenderer
+
+        src0 = h.render_dot().source
+        r0 = DotRenderer()
+        r0.config.qualify_op_name = not r0.config.qualify_op_name
+        src1 = h.render_dot().source
+        r0.config.qualify_op_name = not r0.config.qualify_op_name  # put back whatever the object was
+        if src1 != src0:
+            fails.append(Failure(site, "default-rendering-depends-on-another-renderer's-edited-configuration", _first_diff(src0, src1)))
+            return fails
+    except Exception as e:  # noqa: BLE001
+        fails.append(Failure(site, "raises", f"default render: {type(e).__name__}"))
+        return fails
     # ---- rendering does not modify the HUGR
     after = _snapshot(h)
     if after != before:
